@@ -36,7 +36,7 @@ import (
 	"verifharness/hx"
 )
 
-var stats = evid.New("C22", "rapid: histories of 1..8 writes; small domain offset 0..12, length 1..8 (zero-length writes as a separate class, offset 0..12), wide domain offsets built around byte-carry points (255/256, 65535/65536, 2^24, 2^32, 2^40) and around the ends of earlier writes, lengths 1..300 or up to 70000; after EVERY write every offset 0..max+2 (small) / every start, end, start-1, end-1, end+1 and drawn offsets (wide) is probed with request lengths 1, 2, 3, a drawn one and one reaching past the last write. Exhaustive sub-run: every sequence of <=3 writes with offset,length in 0..6 (thorough: <=4 writes in 0..5, <=3 in 0..8). Non-trivial: >=2 writes of which at least one pair overlaps, touches (end==start), nests or is identical; distinct by the normalised interval pattern (rank-compressed starts/ends in order of the writes, zero-length writes marked) plus domain.")
+var stats = evid.New("C22", "rapid: histories of 1..8 writes; small domain, shape dense: offset 0..12, length 1..8, shape sparse: offset 0..30, length 1..3 (zero-length writes as a separate class, 1 write in 10), wide domain offsets built around byte-carry points (255/256, 65535/65536, 2^24, 2^32, 2^40) and around the ends of earlier writes, lengths 1..300 or up to 70000; after EVERY write every offset 0..max+2 (small) / every start, end, start-1, end-1, end+1 and drawn offsets (wide) is probed with request lengths 1, 2, 3, a drawn one and one reaching past the last write. Exhaustive sub-run: every sequence of <=3 writes with offset,length in 0..6 (thorough: also every sequence of <=4 writes whose starts and ends lie in 0..7, which realises every order pattern of 4 writes). Non-trivial: >=2 writes of which at least one pair overlaps, touches (end==start), nests or is identical; distinct by the normalised interval pattern (rank-compressed starts/ends in order of the writes, zero-length writes marked) plus domain.")
 
 const idZeroLen = "C22-zero-length-write-marks-prefix-modified"
 
@@ -114,10 +114,6 @@ func maxRun(ws []write, cps []int64, o, n int64) int64 {
 
 // ---- the check of one probe
 
-type viol struct {
-	msg string
-}
-
 func probe(tf *filetracker.TFile, ws []write, cps []int64, bitmap []bool, o, n int64, nonMax *int) error {
 	c, mut := tf.VerifRangeToRead(o, n)
 	want := covered(ws, o)
@@ -153,10 +149,9 @@ func probe(tf *filetracker.TFile, ws []write, cps []int64, bitmap []bool, o, n i
 // ---- running a case
 
 type outcome struct {
-	probes   int
-	nonMax   int
-	maxKeys  int
-	finalMrk string
+	probes  int
+	nonMax  int
+	maxKeys int
 }
 
 func sortedUnique(xs []int64) []int64 {
@@ -220,12 +215,18 @@ func checkState(tf *filetracker.TFile, c caseT, ws []write, out *outcome) error 
 	return nil
 }
 
-func runCase(c caseT) (outcome, error) {
+func runCase(c caseT) (outcome, error) { return runCaseOpt(c, false) }
+
+// runCaseOpt applies the history; with onlyFinal the tracker is probed only after the last write
+// (used by the exhaustive enumeration, which visits every prefix as a sequence of its own)
+func runCaseOpt(c caseT, onlyFinal bool) (outcome, error) {
 	var out outcome
 	tf := filetracker.VerifNewTFile()
 	// the empty history: everything comes from the base file
-	if err := checkState(tf, c, nil, &out); err != nil {
-		return out, fmt.Errorf("before any write: %v", err)
+	if !onlyFinal || len(c.Writes) == 0 {
+		if err := checkState(tf, c, nil, &out); err != nil {
+			return out, fmt.Errorf("before any write: %v", err)
+		}
 	}
 	for i, w := range c.Writes {
 		before := tf.VerifMarkers()
@@ -234,10 +235,12 @@ func runCase(c caseT) (outcome, error) {
 		if k := strings.Count(after, ":"); k > out.maxKeys {
 			out.maxKeys = k
 		}
+		if onlyFinal && i+1 < len(c.Writes) {
+			continue
+		}
 		if err := checkState(tf, c, c.Writes[:i+1], &out); err != nil {
 			return out, fmt.Errorf("after write #%d %+v of %v: %v; markers before the write [%s], after [%s]", i+1, w, c.Writes[:i+1], err, before, after)
 		}
-		out.finalMrk = after
 	}
 	return out, nil
 }
@@ -307,7 +310,7 @@ func record(c caseT, out outcome) {
 	stats.Count(fmt.Sprintf("writes_%d", len(c.Writes)), 1)
 	stats.Count("probes", out.probes)
 	stats.Count("probes_nonmaximal_range", out.nonMax)
-	stats.Count(fmt.Sprintf("max_markers_%02d", out.maxKeys), 1)
+	stats.Count(fmt.Sprintf("%s_max_markers_%02d", c.Domain, out.maxKeys), 1)
 	for name, b := range map[string]bool{"rel_overlap": r.overlap, "rel_touch": r.touch, "rel_nest": r.nest, "rel_same": r.same, "has_zero_length": r.zero} {
 		if b {
 			stats.Count(name, 1)
@@ -317,61 +320,97 @@ func record(c caseT, out outcome) {
 
 // ---- generators
 
-func drawSmall(t *rapid.T) caseT {
-	c := caseT{Domain: "small"}
-	n := rapid.IntRange(1, 8).Draw(t, "nwrites")
-	zeroOK := !hx.Known(idZeroLen)
-	for i := 0; i < n; i++ {
-		w := write{Off: rapid.Int64Range(0, 12).Draw(t, "off")}
+// All writes are drawn as slice elements (rapid.SliceOfN) so that the shrinker can drop any write
+// of a failing history, not only the last ones.
+
+func genSmallWrite(maxOff, maxLen int64, zeroOK bool) *rapid.Generator[write] {
+	return rapid.Custom(func(t *rapid.T) write {
+		w := write{Off: rapid.Int64Range(0, maxOff).Draw(t, "off")}
 		if rapid.IntRange(0, 9).Draw(t, "zero") == 0 {
 			if zeroOK {
-				w.Len = 0
-			} else {
-				stats.Count("excluded_"+idZeroLen, 1)
-				w.Len = rapid.Int64Range(1, 8).Draw(t, "len")
+				return w // zero-length class
 			}
-		} else {
-			w.Len = rapid.Int64Range(1, 8).Draw(t, "len")
+			stats.Count("excluded_"+idZeroLen, 1)
 		}
-		c.Writes = append(c.Writes, w)
+		w.Len = rapid.Int64Range(1, maxLen).Draw(t, "len")
+		return w
+	})
+}
+
+// drawMinWrites: single-write histories are trivial (and enumerated exhaustively), so only one
+// history in ten may have fewer than two writes; the draw shrinks towards allowing one write
+func drawMinWrites(t *rapid.T) int {
+	if rapid.IntRange(0, 9).Draw(t, "single_ok") == 0 {
+		return 1
 	}
-	c.ReqLens = []int64{rapid.Int64Range(1, 24).Draw(t, "reqlen")}
+	return 2
+}
+
+func drawSmall(t *rapid.T) caseT {
+	c := caseT{Domain: "small"}
+	maxOff, maxLen := int64(12), int64(8) // dense: regions merge quickly
+	if rapid.IntRange(0, 2).Draw(t, "sparse") == 0 {
+		maxOff, maxLen = 30, 3 // sparse: several regions coexist
+	}
+	c.Writes = rapid.SliceOfN(genSmallWrite(maxOff, maxLen, !hx.Known(idZeroLen)), drawMinWrites(t), 8).Draw(t, "writes")
+	c.ReqLens = []int64{rapid.Int64Range(1, 40).Draw(t, "reqlen")}
 	return c
 }
 
 var carryPoints = []int64{0, 255, 256, 65535, 65536, 1 << 24, 1 << 32, 1 << 40}
 
+const wideMaxOff = int64(1000000)
+
+// wideSpec is a write of the wide domain before it is resolved against the earlier writes
+type wideSpec struct {
+	sel, rel   int
+	relEnd     bool
+	delta, off int64
+	length     int64
+}
+
+func genWideSpec() *rapid.Generator[wideSpec] {
+	return rapid.Custom(func(t *rapid.T) wideSpec {
+		sp := wideSpec{sel: rapid.IntRange(0, 9).Draw(t, "offsel")}
+		switch {
+		case sp.sel <= 2: // relative to an earlier write's start or end (first write: absolute)
+			sp.rel = rapid.IntRange(0, 7).Draw(t, "rel")
+			sp.relEnd = rapid.Bool().Draw(t, "relend")
+			sp.delta = rapid.Int64Range(-300, 300).Draw(t, "reld")
+			sp.off = rapid.Int64Range(0, wideMaxOff).Draw(t, "off")
+		case sp.sel <= 4: // around a point where the big-endian key carries into the next byte
+			sp.off = rapid.SampledFrom(carryPoints).Draw(t, "carry") + rapid.Int64Range(-300, 10).Draw(t, "carryd")
+		default:
+			sp.off = rapid.Int64Range(0, wideMaxOff).Draw(t, "off")
+		}
+		if rapid.IntRange(0, 5).Draw(t, "biglen") == 0 {
+			sp.length = rapid.Int64Range(1, 70000).Draw(t, "len")
+		} else {
+			sp.length = rapid.Int64Range(1, 300).Draw(t, "len")
+		}
+		return sp
+	})
+}
+
 func drawWide(t *rapid.T) caseT {
 	c := caseT{Domain: "wide"}
-	n := rapid.IntRange(1, 8).Draw(t, "nwrites")
-	maxOff := int64(1000000)
-	for i := 0; i < n; i++ {
-		var w write
-		switch sel := rapid.IntRange(0, 9).Draw(t, "offsel"); {
-		case sel <= 2 && i > 0: // relative to an earlier write's start or end
-			p := c.Writes[rapid.IntRange(0, i-1).Draw(t, "rel")]
-			base := p.Off
-			if rapid.Bool().Draw(t, "relend") {
-				base = p.Off + p.Len
+	specs := rapid.SliceOfN(genWideSpec(), drawMinWrites(t), 8).Draw(t, "writes")
+	for i, sp := range specs {
+		w := write{Off: sp.off, Len: sp.length}
+		if sp.sel <= 2 && i > 0 {
+			p := c.Writes[sp.rel%i]
+			w.Off = p.Off + sp.delta
+			if sp.relEnd {
+				w.Off += p.Len
 			}
-			w.Off = base + rapid.Int64Range(-300, 300).Draw(t, "reld")
-		case sel <= 4: // around a point where the big-endian key carries into the next byte
-			w.Off = rapid.SampledFrom(carryPoints).Draw(t, "carry") + rapid.Int64Range(-300, 10).Draw(t, "carryd")
-		default:
-			w.Off = rapid.Int64Range(0, maxOff).Draw(t, "off")
 		}
 		if w.Off < 0 {
 			w.Off = 0
 		}
-		if rapid.IntRange(0, 5).Draw(t, "biglen") == 0 {
-			w.Len = rapid.Int64Range(1, 70000).Draw(t, "len")
-		} else {
-			w.Len = rapid.Int64Range(1, 300).Draw(t, "len")
-		}
 		c.Writes = append(c.Writes, w)
 	}
 	c.ReqLens = []int64{rapid.Int64Range(1, 100000).Draw(t, "reqlen")}
-	c.Probes = rapid.SliceOfN(rapid.Int64Range(0, maxOff+70000), 0, 4).Draw(t, "probes")
+	c.Probes = rapid.SliceOfN(rapid.Int64Range(0, wideMaxOff+70000), 0, 4).Draw(t, "probes")
 	return c
 }
 
@@ -413,5 +452,252 @@ func TestPropWide(t *testing.T) {
 		c := drawWide(t)
 		out := check(t, c)
 		record(c, out)
+	})
+}
+
+// ---- exhaustive enumeration for tiny bounds
+
+// enumerate calls fn for every sequence of exactly k writes (k = 1..maxWrites) drawn from the
+// candidate list, restricted to this shard (sequence index modulo shards).
+func enumerate(cands []write, maxWrites int, shard, shards int, fn func(ws []write) bool) {
+	idx := 0
+	for k := 1; k <= maxWrites; k++ {
+		pos := make([]int, k)
+		ws := make([]write, k)
+		for {
+			if idx%shards == shard {
+				for i, p := range pos {
+					ws[i] = cands[p]
+				}
+				if !fn(ws) {
+					return
+				}
+			}
+			idx++
+			i := k - 1
+			for i >= 0 {
+				pos[i]++
+				if pos[i] < len(cands) {
+					break
+				}
+				pos[i] = 0
+				i--
+			}
+			if i < 0 {
+				break
+			}
+		}
+	}
+}
+
+// safeRun is runCaseOpt with panics turned into errors (no watchdog goroutine: the enumeration
+// runs millions of cases; the tracker has no loop other than the walk over a finite tree)
+func safeRun(c caseT, onlyFinal bool) (out outcome, err error) {
+	defer func() {
+		if r := recover(); r != nil {
+			err = fmt.Errorf("PANIC: %v", r)
+		}
+	}()
+	return runCaseOpt(c, onlyFinal)
+}
+
+func runExhaustive(t *testing.T, label string, cands []write, maxWrites int) {
+	shard, shards := hx.EnvInt("VERIF_SHARD", 0), hx.EnvInt("VERIF_SHARDS", 1)
+	if shards < 1 || shard < 0 || shard >= shards {
+		shard, shards = 0, 1
+	}
+	if hx.Known(idZeroLen) {
+		var keep []write
+		for _, w := range cands {
+			if w.Len == 0 {
+				stats.Count("excluded_"+idZeroLen, 1)
+				continue
+			}
+			keep = append(keep, w)
+		}
+		cands = keep
+	}
+	n := 0
+	enumerate(cands, maxWrites, shard, shards, func(ws []write) bool {
+		c := caseT{Domain: "small", Writes: append([]write(nil), ws...)}
+		out, err := safeRun(c, true)
+		if err != nil {
+			t.Errorf("%s: %v; case=%v", label, err, c)
+			return false
+		}
+		record(c, out)
+		n++
+		return true
+	})
+	stats.Count("exhaustive_"+label+"_sequences", n)
+	if !t.Failed() {
+		stats.SetExhaustive(true)
+		stats.Note("exhaustive_"+label, fmt.Sprintf("every sequence of 1..%d writes over %d candidate writes (shard %d of %d: %d sequences), probed after the last write (every prefix is a sequence of its own)", maxWrites, len(cands), shard, shards, n))
+	}
+}
+
+// TestExhaustiveTiny: every sequence of <= 3 writes with offset and length in 0..6 (DESIGN G)
+func TestExhaustiveTiny(t *testing.T) {
+	var cands []write
+	for o := int64(0); o <= 6; o++ {
+		for l := int64(0); l <= 6; l++ {
+			cands = append(cands, write{o, l})
+		}
+	}
+	runExhaustive(t, "tiny3", cands, 3)
+}
+
+// TestExhaustiveDeep (thorough tier): every sequence of <= 4 writes whose starts and ends lie in
+// 0..7.  Only the relative order of the 2k starts/ends of k writes can matter to a comparison-based
+// tracker, and 8 values realise every order pattern of 4 writes, zero-length ones included.
+func TestExhaustiveDeep(t *testing.T) {
+	if !hx.Thorough() {
+		t.Skip("thorough tier only")
+	}
+	var cands []write
+	for s := int64(0); s <= 7; s++ {
+		for e := s; e <= 7; e++ {
+			cands = append(cands, write{s, e - s})
+		}
+	}
+	runExhaustive(t, "deep4", cands, 4)
+}
+
+// ---- pinned regression cases (plain Go, no library)
+
+var regress = []struct {
+	name string
+	c    caseT
+}{
+	// the five ways a write can begin before an existing region, and the touching write
+	{"touch_after", caseT{Domain: "small", Writes: []write{{0, 1}, {1, 1}}}},
+	{"disjoint_before", caseT{Domain: "small", Writes: []write{{2, 1}, {0, 1}}}},
+	{"touch_before", caseT{Domain: "small", Writes: []write{{2, 1}, {1, 1}}}},
+	{"overlap_left_same_end", caseT{Domain: "small", Writes: []write{{2, 1}, {1, 2}}}},
+	{"cover", caseT{Domain: "small", Writes: []write{{2, 1}, {1, 3}}}},
+	{"overlap_left", caseT{Domain: "small", Writes: []write{{2, 2}, {1, 2}}}},
+	{"bridge_two_regions_exactly", caseT{Domain: "small", Writes: []write{{0, 2}, {4, 2}, {2, 2}}}},
+	{"bridge_three_regions", caseT{Domain: "small", Writes: []write{{0, 1}, {2, 1}, {4, 1}, {1, 3}}}},
+	// states with two end markers in a row (reachable only through a wrong merge) must not survive
+	{"touch_chain", caseT{Domain: "small", Writes: []write{{0, 1}, {1, 1}, {2, 1}}}},
+	{"touch_before_then_after", caseT{Domain: "small", Writes: []write{{1, 1}, {0, 1}, {2, 1}}}},
+	{"shrink_inside_then_touch", caseT{Domain: "small", Writes: []write{{0, 2}, {0, 1}, {2, 1}}}},
+	{"write_between", caseT{Domain: "small", Writes: []write{{0, 1}, {6, 1}, {3, 1}}}},
+	{"multi_byte_keys", caseT{Domain: "wide", Writes: []write{{256, 10}, {255, 1}, {65535, 2}, {0, 3}}, ReqLens: []int64{70000}}},
+	// the sequence of datamon's own TestTrackWrite
+	{"upstream_sequence", caseT{Domain: "small", Writes: []write{{0, 1}, {0, 10}, {13, 10}, {0, 22}}, ReqLens: []int64{100}}},
+}
+
+func TestRegress(t *testing.T) {
+	for _, r := range regress {
+		r := r
+		t.Run(r.name, func(t *testing.T) {
+			out := check(t, r.c)
+			record(r.c, out)
+		})
+	}
+}
+
+// TestRegressZeroLength: a write of no bytes covers no offset.  Pinned apart from TestRegress so
+// that it can be told from TestKnownZeroLength, which handles the same input when it is listed.
+func TestRegressZeroLength(t *testing.T) {
+	if hx.Listed(idZeroLen) {
+		t.Skip("listed as known: see TestKnownZeroLength")
+	}
+	for _, c := range zeroLenCases {
+		out := check(t, c)
+		record(c, out)
+	}
+}
+
+var zeroLenCases = []caseT{
+	{Domain: "small", Writes: []write{{1, 0}}},
+	{Domain: "small", Writes: []write{{0, 1}, {2, 0}}},
+	{Domain: "small", Writes: []write{{2, 2}, {0, 0}, {2, 0}, {3, 0}, {4, 0}, {6, 0}}},
+}
+
+// TestKnownZeroLength: pinned case of the finding C22-zero-length-write-marks-prefix-modified
+func TestKnownZeroLength(t *testing.T) {
+	c := zeroLenCases[0]
+	_, err := runCase(c)
+	if err == nil {
+		return // does not reproduce (repaired)
+	}
+	what := fmt.Sprintf("trackWrite(offset, 0) on a spot outside every written region leaves a lone end marker, so every offset before it is reported as modified: %v", err)
+	if hx.Listed(idZeroLen) {
+		stats.KnownFinding(idZeroLen, what)
+		return
+	}
+	t.Fatalf("%s", what)
+}
+
+// TestReplayJournal re-executes the case left in a journal by a process-killing failure
+func TestReplayJournal(t *testing.T) {
+	p := os.Getenv("VERIF_REPLAY_JOURNAL")
+	if p == "" {
+		t.Skip("no journal given")
+	}
+	b, err := os.ReadFile(p)
+	if err != nil {
+		t.Fatalf("%v", err)
+	}
+	var c caseT
+	if err := json.Unmarshal(b, &c); err != nil {
+		t.Fatalf("journal %s: %v", p, err)
+	}
+	if c.Domain == "" {
+		c.Domain = "small"
+	}
+	check(t, c)
+}
+
+// ---- native fuzz target (thorough tier only): bytes -> history, same oracle
+
+func decodeFuzz(data []byte) caseT {
+	c := caseT{Domain: "wide"}
+	if len(data) > 0 && data[0]&1 == 0 {
+		c.Domain = "small"
+	}
+	for i := 1; i+1 < len(data) && len(c.Writes) < 8; i += 2 {
+		var w write
+		if c.Domain == "small" {
+			w = write{int64(data[i] % 31), int64(data[i+1] % 9)}
+		} else {
+			// offset = 2^(hi nibble * 3) - 1 + lo nibble .. spreads over the byte-carry points
+			w = write{(int64(1) << (3 * uint(data[i]>>4))) - 1 + int64(data[i]&15), int64(data[i+1]) * int64(1+data[i+1]%3*100)}
+		}
+		c.Writes = append(c.Writes, w)
+	}
+	return c
+}
+
+func FuzzHistory(f *testing.F) {
+	f.Add([]byte{0, 0, 1, 1, 1})
+	f.Add([]byte{0, 2, 1, 0, 1})
+	f.Add([]byte{0, 2, 1, 1, 3, 5, 0})
+	f.Add([]byte{1, 0x30, 10, 0x2f, 1, 0x50, 2})
+	for _, r := range regress {
+		if r.c.Domain != "small" {
+			continue
+		}
+		b := []byte{0}
+		for _, w := range r.c.Writes {
+			b = append(b, byte(w.Off), byte(w.Len))
+		}
+		f.Add(b)
+	}
+	f.Fuzz(func(t *testing.T, data []byte) {
+		c := decodeFuzz(data)
+		if hx.Known(idZeroLen) {
+			for _, w := range c.Writes {
+				if w.Len == 0 {
+					return
+				}
+			}
+		}
+		if len(c.Writes) == 0 {
+			return
+		}
+		check(t, c) // no statistics: the driver reports the fuzzer's own exec count
 	})
 }
